@@ -1,2 +1,8 @@
 import FlexVerif.Spec.Re
 import FlexVerif.Spec.ReLemmas
+import FlexVerif.Spec.Pat
+import FlexVerif.Spec.Rules
+import FlexVerif.Validator.SpecAuto
+import FlexVerif.Validator.Bisim
+import FlexVerif.Validator.Tables
+import FlexVerif.Validator.Validate
